@@ -40,6 +40,7 @@ type randLog struct {
 	shortWith func() [][]byte // C10: when set, 40-byte values are re-drawn until the D-H secret with one of these exponents has a leading zero byte
 	keep      bool            // C08: keep every value handed out, the buffer it was written to, and the call site
 	draws     []draw
+	dsa       *RNG // reads made from inside crypto/dsa are served from a stream of their own (see inDSA)
 }
 
 // draw: one read from the random source (kept when randLog.keep is set)
@@ -75,7 +76,29 @@ func drawSite() string {
 	}
 }
 
+// inDSA: is this read made by the standard library's DSA signing?  dsa.Sign consumes one byte of the source or not
+// *at random* (randutil.MaybeReadByte) before drawing its nonce; served from the main stream this would shift every
+// later value (DH exponents, r, instance tags) by one byte in some runs and not in others, so that two runs on the
+// same seed differ wherever an outcome depends on the values drawn (e.g. who wins a D-H Commit collision).
+func inDSA() bool {
+	pcs := make([]uintptr, 16)
+	n := runtime.Callers(3, pcs)
+	fr := runtime.CallersFrames(pcs[:n])
+	for {
+		f, more := fr.Next()
+		if strings.HasPrefix(f.Function, "crypto/dsa.") || strings.HasPrefix(f.Function, "crypto/internal/randutil.") {
+			return true
+		}
+		if strings.Contains(f.Function, "otr3.") || !more {
+			return false
+		}
+	}
+}
+
 func (l *randLog) Read(p []byte) (int, error) {
+	if l.fail == 0 && l.dsa != nil && inDSA() {
+		return l.dsa.Read(p)
+	}
 	if l.fail > 0 {
 		l.fail--
 		if l.fail == 0 {
@@ -167,7 +190,7 @@ func (p *Party) ReceivedSymmetricKey(usage uint32, data []byte, key []byte) {
 var partyKeys = []*otr3.DSAPrivateKey{nil, aliceKey, bobKey, eveKey, malKey}
 
 func newParty(id, pol int, seed uint64) *Party {
-	p := &Party{id: id, pol: pol, rnd: &randLog{r: NewRNG(seed*977 + uint64(id))}}
+	p := &Party{id: id, pol: pol, rnd: &randLog{r: NewRNG(seed*977 + uint64(id)), dsa: NewRNG(seed*7717 + 31*uint64(id) + 5)}}
 	p.rnd.owner = p
 	c := &otr3.Conversation{}
 	otr3.VerifSetPolicies(c, pol)
